@@ -46,8 +46,14 @@ DTDiffAct(k, ta, tb, o, since, cal, nomode) ==
      IN last' = [op |-> "dtdiff", rel |-> cur.rel, dur |-> cur.dur, a |-> a, b |-> b, o |-> o, since |-> since, cal |-> cal, nomode |-> nomode,
                  out |-> DTDiffRounded(a, b, o.lg, o.sm, o.inc, o.mode, since)]
   /\ UNCHANGED cur
+\* the same call with largestUnit left out: it is then the larger of the duration's own largest unit and the smallest unit - and the option
+\* rule (a date smallest unit takes an increment above 1 only as the largest unit too) is applied to THAT unit
+RoundAbsentAct(o) == LET lg == UnitMax(DefaultLargest(cur.dur), o.sm)
+                     IN last' = [op |-> "round", rel |-> cur.rel, dur |-> cur.dur, o |-> [o EXCEPT !.lg = lg], absent |-> TRUE,
+                                 out |-> RoundRel(cur.rel, cur.dur, lg, o.sm, o.inc, o.mode)] /\ UNCHANGED cur
 Next == /\ (OneStep => last = None)
         /\ \/ \E o \in Opts : UnitLe(o.sm, o.lg) /\ RoundAct(o)
+           \/ \E o \in Opts : o.lg = o.sm /\ RoundAbsentAct(o)
            \/ \E k \in DTOffsets, ta \in DTTimesA, tb \in DTTimesB, o \in Opts, since \in BOOLEAN, cal \in {"iso8601", "gregory"}, nomode \in BOOLEAN :
                   UnitLe(o.sm, o.lg) /\ DTDiffAct(k, ta, tb, o, since, cal, nomode)
            \/ \E k \in DiffOffsets, o \in DateOpts, since \in BOOLEAN, bare \in BOOLEAN : UnitLe(o.sm, o.lg) /\ DateDiffAct(k, o, since, bare)
